@@ -159,6 +159,11 @@ def check(ctx: Ctx) -> str:
     ctx.check("has_safe_repr(const)" in ast.unparse(nat.node), "native:safe-repr", "nativetypes:NativeCodeGenerator._output_child_to_const", "safe repr gate", "native constant output must refuse values without a safe repr", nat.loc())
     r3_safe_repr(ctx)
     visitor_forwarding_rule(ctx, "R4")
+    # the fold tables are the run-time operators (rule owned by C02): a folded comparison /
+    # arithmetic must apply the operands in the order the emitted code does
+    from . import c02
+
+    ctx.run_imported("C02", {"R2"}, c02.check)
     return __doc__ or ""
 
 
